@@ -102,6 +102,24 @@ def _work(item):
         if sag > 1.05 * (1.02 * r) ** 2 / (8 * R) + 1e-9 and r <= R:
             out.append((f"{shape}:chord-error", f"{label}: sagitta {sag:.6g} exceeds r^2/(8R) = {r * r / (8 * R):.6g}", rp))
         return out, n
+    if kind == "units-switch":
+        # the units are switched on a live builder after the resolution was set: the resolution in force afterwards is the same
+        # number or the same physical length - nothing else
+        from ..harness import Sut
+        st = Sut({})
+        g = st.g
+        other = units
+        if other == "mm":
+            g.set_length_units("in")
+        g.set_resolution(float(resolution))
+        g.set_length_units(other)
+        r = float(g.state.resolution)
+        factor = 25.4 if other == "mm" else 1 / 25.4
+        rp = {"kind": kind, "index": idx, "label": f"units switched to {other}", "resolution": resolution, "direction": direction, "mode": mode, "units": units}
+        if not any(abs(r - want) <= 1e-9 * want for want in (resolution, resolution * factor)):
+            return [("units-switch:resolution-neither-kept-nor-converted", f"set_resolution({resolution}) then set_length_units({other!r}): state.resolution = {r!r}, "
+                     f"expected {resolution} (number kept) or {resolution * factor} (length kept)", rp)], 0
+        return [], 0
     if kind == "live-change":
         # the resolution is changed on a live builder between two traces: the second trace must honour the new value
         label, builder, L, R = constant_speed_cases(tier)[idx]
@@ -198,6 +216,13 @@ def run(tier, seed):
         if label.startswith("circle"):
             items.append(("live-change", idx, min(R, 2.0), "clockwise", "absolute", None, tier))
             items.append(("live-change", idx, min(R, 2.0), "counter", "relative", None, tier))
+    # curves tighter than the resolution: many turns of a narrow helix still get length / resolution segments
+    for idx, (label, b, L, R) in enumerate(cases):
+        if label in ("helix R0.05 turns3 dzNone", "helix R1.0 turns3 dzNone", "helix R10.0 turns3 dz8.0"):
+            items.append(("speed", idx, 2.5 * R, "clockwise", "absolute", None, tier))       # diameter < 0.9 resolution units
+            items.append(("speed", idx, 3.0 * R, "counter", "relative", None, tier))
+    items.append(("units-switch", 0, 0.5, "clockwise", "absolute", "in", tier))
+    items.append(("units-switch", 0, 0.02, "clockwise", "absolute", "mm", tier))
     for idx, _ in enumerate(other_shapes()):
         items.append(("after-other-shape", idx, 0.25, "clockwise", "absolute", None, tier))
         items.append(("after-other-shape", idx, 0.1, "counter", "relative", None, tier))
